@@ -21,11 +21,10 @@ def run(ctx):
                         'std::domain_error modelled by stubs/cxxrt.c (object = vptr + message copy)',
                         'operator new never fails']
     jobs = []
-    for e, to in [('c08_add', 300), ('c08_sub', 300), ('c08_neg', 300), ('c08_cmp', 300)] + [(x, 300) for x in MULT if not x.endswith('_any')]:
+    for e, to in [('c08_add', 300), ('c08_sub', 300), ('c08_neg', 300), ('c08_cmp', 300)] + [('c08_mul_any', 600), ('c08_div_any', 1200), ('c08_mod_any', 1200)]:
         if ctx.only and e not in ctx.only:
             continue
-        jobs.append(lambda e=e, to=to: V.run_entry(ctx, m, e, 4, timeout=to, bounds='all 2^130 operand pairs'))
-    m.lower()
+        jobs.append(lambda e=e, to=to: V.run_entry(ctx, m, e, 10, timeout=to, bounds='all 2^130 operand pairs (64-bit payload x signedness, both operands)'))
     V.run_parallel(jobs)
 
 def replay(ctx, js):
